@@ -42,7 +42,9 @@ META = dict(
               'canonical-form check of the separation measure and of the '
               'polarisation interpolation formula; shared-state effect analysis'
               '; class-wise truth tables over every scatterer class with the document'
-              'ed shape of each class as the oracle',
+              'ed shape of each class as the oracle; sign-sensitivity walk of the '
+              'raising guards of _scsmfo_setup (ordering tests on the centres go '
+              'through an even function)',
     level_text='Static: Q1-Q3 decide the default-theory clause exhaustively (the '
                'dispatch is a finite table) and that "auto" cannot differ from '
                'naming the theory; Q4 is an algebraic identity of the cross-section '
